@@ -10,6 +10,20 @@ use std::collections::HashMap;
 use std::rc::Rc;
 use target_scheme::TargetScheme;
 
+/// Escape a user-provided string so it can be written between double quotes in the generated
+/// Scheme code: its backslashes and double quotes would otherwise end or alter the string literal.
+pub(crate) fn escape_string(input: &str) -> String {
+    let mut escaped = String::with_capacity(input.len());
+    for c in input.chars() {
+        match c {
+            '\\' => escaped.push_str("\\\\"),
+            '"' => escaped.push_str("\\\""),
+            c => escaped.push(c),
+        }
+    }
+    escaped
+}
+
 /// Information collected about the compilation
 pub struct CompiledExpression {
     policy_body: String,
@@ -74,7 +88,7 @@ pub fn compile(
 
 impl CompiledExpression {
     pub fn scheme<S: AsRef<str>>(&self, mdt: S) -> String {
-        let mdt = mdt.as_ref();
+        let mdt = escape_string(mdt.as_ref());
         format!(
             "(use-modules (lipe) (lipe find){})
 
